@@ -75,6 +75,14 @@ CLAIMED = {
             '(final resize(counter) with one increment per element load; clear() before insertion; clear iff Clean; reset only on the '
             'not-loaded path; assign; size-mismatch throw) and the map load modes have no forbidden effect. Final values are not decided.',
             'CFG path enumeration (event order / counting) + effect rules per switch case', '§5 C18'),
+    'C13': ('other',
+            'Decides the structural clauses: BOM constants against the Unicode tables; BOM test order, reported encoding and data offset; the '
+            'BOM-less detection as a decision table over byte classes of texts starting with an ASCII character in each encoding (one unit '
+            'and longer) with every probe read inside the view; every switch over UtfType maps like-named traits; the writer emits the BOM '
+            'iff configured, for the configured encoding, with size()*sizeof(unit) bytes; the stream reader\'s window arithmetic over symbolic '
+            'pointers (invariant, refill/squeeze bounds, no overlapping memcpy) and end-of-file progress (Success at eof leaves an empty '
+            'window, so no caller loop can spin). Equality of decoded and written text is not decided.',
+            'abstract interpretation over byte-class / linear-constraint domains (Fourier-Motzkin entailment) + AST structural rules', '§5 C13'),
     'C19': ('proof',
             'Exhaustive audit of shared state: every static-storage object of the library is immutable or a tabled registry written only '
             'during static initialisation; save paths never mutate the source; hence every shared access from concurrent operations is a '
